@@ -22,7 +22,7 @@ Orthogonal ==
     \A d \in Cfg :
         /\ d.nostd = cfg.nostd => Lazy(d) = Lazy(cfg) /\ Form(d, "LazyLock") = Form(cfg, "LazyLock")
         /\ d.wild = cfg.wild => SuperUse(d, [module |-> "m", list |-> <<"A">>]) = SuperUse(cfg, [module |-> "m", list |-> <<"A">>])
-        /\ d.imports = cfg.imports => Other(d, <<>>) = Other(cfg, <<>>)
+        /\ d.imports = cfg.imports => Other(d, <<>>, <<"A", "B">>) = Other(cfg, <<>>, <<"A", "B">>)
         /\ d.ann = cfg.ann => Derives(d, Required) = Derives(cfg, Required) /\ Attrs(d, <<>>) = Attrs(cfg, <<>>)
         /\ d.from = cfg.from => From(d, pat, VarNames(pat)) = From(cfg, pat, VarNames(pat))
 
